@@ -53,7 +53,30 @@ class Engine:
         self.rule = rule
         self.max_rounds = max_rounds
 
+    def _bool_defs(self, body):
+        """locals that name a condition: declared once with a comparison / logical expression and never assigned again.
+        A test of such a local is a test of the expression it names (`const bool inRange = lo <= y && y <= hi; if (!inRange)`)."""
+        from .ir import walk_stmts
+        assigned = {}
+        for s in walk_stmts(body):
+            if s.k == 'assign' and s.a[0].k == 'var':
+                assigned[s.a[0].a[0]] = assigned.get(s.a[0].a[0], 0) + 1
+        defs = {}
+        for s in walk_stmts(body):
+            if s.k == 'decl' and s.a[2] is not None and not assigned.get(s.a[0]):
+                e = s.a[2]
+                while e.k == 'cast':
+                    e = e.a[2]
+                if (e.k == 'bin' and e.a[0] in ('&&', '||', '<', '<=', '>', '>=', '==', '!=')) or (e.k == 'un' and e.a[0] == '!'):
+                    from .ir import walk_expr
+                    if any(x.k == 'var' and assigned.get(x.a[0]) for x in walk_expr(e)):
+                        continue            # an operand changes later: the name and the expression may part ways
+                    defs[s.a[0]] = e if s.a[0] not in defs else None       # two locals of that name: ambiguous
+        return {k: v for k, v in defs.items() if v is not None}
+
     def run(self, body):
+        self.bool_defs = self._bool_defs(body)
+        self._quiet = 0
         init = States()
         for st in self.rule.initial():
             init.add(st, ())
@@ -84,6 +107,9 @@ class Engine:
             for i, e in enumerate(exprs):
                 if k == 'assign' and i == 1:
                     cur = self.lvalue(e, cur)
+                elif k == 'decl' and a[0] in getattr(self, 'bool_defs', {}):
+                    # a named condition: its operands are evaluated here (events), its truth is split where it is tested
+                    cur = self.events_only(e, cur)
                 else:
                     cur = self.expr(e, cur)
             out = States()
@@ -212,8 +238,22 @@ class Engine:
             return cur
         return states
 
+    def events_only(self, e, states):
+        """every sub-expression is seen by the rule (in evaluation order) without splitting on && / || / ?:"""
+        from .ir import walk_expr
+        subs = list(walk_expr(e))
+        cur = states
+        for x in reversed(subs):       # operands before the operators that use them
+            out = States()
+            for st, tr in cur.items():
+                out.add(self.rule.event(x, st, tr), tr)
+            cur = out
+        return cur
+
     def expr(self, e, states):
         if e is None or not isinstance(e, E):
+            return states
+        if getattr(self, '_quiet', 0):
             return states
         k, a = e.k, e.a
         if k == 'cond':
@@ -255,6 +295,16 @@ class Engine:
             t1, f1 = self.branch(a[1], states, loc)
             t2, f2 = self.branch(a[2], f1, loc)
             return t1.merge(t2), f2
+        leaf = cond
+        while leaf.k == 'cast' or (leaf.k == 'un' and leaf.a[0] == 'bool'):
+            leaf = leaf.a[-1]
+        if leaf.k == 'var' and leaf.a[0] in getattr(self, 'bool_defs', {}):
+            # the events of the named expression were seen where it was evaluated; here only its truth is split
+            self._quiet += 1
+            try:
+                return self.branch(self.bool_defs[leaf.a[0]], states, loc)
+            finally:
+                self._quiet -= 1
         cur = self.expr(cond, states)
         t, f = States(), States()
         txt = _short(show(cond))
